@@ -171,6 +171,14 @@ impl Lowerer<'_> {
         let default_branches: Vec<_> =
             branches.iter().filter(|(d, _, _)| d.is_none()).collect();
 
+        // The default case is only reachable if some variant is not named
+        // by any arm. If all variants are named, the `_` arms are still
+        // part of the chain of each variant, but a chain of only `_` arms
+        // might end in a guard (the match is exhaustive because of the
+        // variant arms), so we must not generate it.
+        let needs_default = !default_branches.is_empty()
+            && all_discriminants.len() < variants.len();
+
         let examinee = self.expr(expr);
         let examinee = self.assign_to_var(examinee, examinee_ty_ref);
         let discriminant = self.undropped_tmp();
@@ -179,7 +187,7 @@ impl Lowerer<'_> {
             TyRef::U8,
             Value::Discriminant(examinee.clone()),
         );
-        let default_branch = if !default_branches.is_empty() {
+        let default_branch = if needs_default {
             Some(default_lbl)
         } else {
             None
@@ -212,7 +220,7 @@ impl Lowerer<'_> {
             );
         }
 
-        if !default_branches.is_empty() {
+        if needs_default {
             self.match_case(
                 examinee,
                 examinee_ty_ref,
